@@ -122,6 +122,7 @@ struct MCtx<'a> {
     honest_other: Vec<Option<CSig>>,
     tree: MiniTree,
     adv: Adversary,
+    torsion: Vec<blst::blst_p1>,
 }
 
 pub fn messages() -> (Vec<u8>, Vec<u8>) {
@@ -140,6 +141,7 @@ impl<'a> MCtx<'a> {
             honest_other: (0..n).map(|i| w.honest(i, other)).collect(),
             tree: MiniTree::new(w),
             adv: Adversary::new(),
+            torsion: torsion_points(),
         }
     }
 
@@ -332,6 +334,22 @@ impl<'a> MCtx<'a> {
             push(format!("sig{p}.sigma=identity"), with(&move |x| x.sigma = inf.clone()));
             if let Some(sg) = sigma_shift(&e.sigma, 1) {
                 push(format!("sig{p}.sigma+=G"), with(&move |x| x.sigma = sg.clone()));
+            }
+            // sigma + j·T with T on the curve but outside G1: invisible to a pairing, and new bytes mean new
+            // lottery draws. Claimed indices: (a) unchanged, (b) what the new bytes win for the claimed stake
+            for (ti, t) in self.torsion.iter().enumerate() {
+                for j in [1u32, 2] {
+                    let Some(sg) = sigma_plus_torsion(&e.sigma, t, j) else { continue };
+                    let sg2 = sg.clone();
+                    push(format!("sig{p}.sigma+={j}*torsion{ti}"), with(&move |x| x.sigma = sg2.clone()));
+                    let wins = self.r.winning(&w.view, &msgp, &sg, e.stake);
+                    if !wins.is_empty() && wins != e.indexes {
+                        push(format!("sig{p}.sigma+={j}*torsion{ti},indexes=won-by-new-bytes"), with(&move |x| {
+                            x.sigma = sg.clone();
+                            x.indexes = wins.clone();
+                        }));
+                    }
+                }
             }
         }
         // --- batch path
@@ -534,6 +552,12 @@ struct Verdicts {
 
 fn eval_case(w: &World, r: &Reference, msg: &[u8], case: &Case, rep: &mut Report, all_forms: bool) -> Verdicts {
     let mut forms = decode_forms(&case.cand, rep, all_forms);
+    if case.name.contains("torsion") && case.cand.sigs.iter().any(|e| sigma_outside_g1(&e.sigma)) {
+        rep.add_extra("torsion_sigma_candidates", 1);
+        if forms.is_empty() {
+            rep.add_extra("torsion_sigma_candidates_rejected_at_decode_in_every_form", 1);
+        }
+    }
     let mut accepted = false;
     let mut label = String::from("undecodable");
     let mut verdicts: Vec<(&str, bool)> = vec![];
@@ -624,6 +648,12 @@ fn eval_single(w: &World, r: &Reference, msg: &[u8], msg_is_a: bool, name: &str,
     match decode_single_bytes(&s.single_legacy()) {
         Ok(a) => forms.push(("legacy", a)),
         Err(_) => rep.add_extra("undecodable_legacy", 1),
+    }
+    if name.contains("torsion") && sigma_outside_g1(&s.sigma) {
+        rep.add_extra("torsion_sigma_single_candidates", 1);
+        if forms.is_empty() {
+            rep.add_extra("torsion_sigma_single_candidates_rejected_at_decode_in_every_form", 1);
+        }
     }
     for (form, a) in forms {
         rep.eval();
@@ -1016,6 +1046,8 @@ pub fn run(ctx: &Ctx) -> ! {
                     let Some(l) = labels.get(&idx) else { continue };
                     let class = if case.name.ends_with("sigma=own-over-other-message") && case.cand.sigs.len() == 1 {
                         "swap".to_string()
+                    } else if case.name.contains("torsion") {
+                        format!("torsion:{l}")
                     } else if l == "accepted" { format!("accepted:{}", if case.honest { "honest" } else if case.cand.sigs.len() == 1 { "one-entry" } else { "mutant" }) } else { l.clone() };
                     let cnt = per_label.entry(class).or_insert(0);
                     if *cnt < pool_per_label && l != "undecodable" {
